@@ -142,4 +142,10 @@ def r08_3(ctx):
             o["rule"] = "R08.3"
 
 
-RULES = [("R08.1", r08_1), ("R08.2", r08_2), ("R08.3", r08_3)]
+def r08_w(ctx):
+    """type-level witnesses (compile_fail doctests with error codes, each with a compiling twin)"""
+    from ..core import witness_obligations
+    witness_obligations(ctx, "R08.W", [('W5RawNumberNoCtor', 'RawNumber has no public constructor from arbitrary text')])
+
+
+RULES = [("R08.1", r08_1), ("R08.2", r08_2), ("R08.3", r08_3), ("R08.W", r08_w)]
